@@ -62,6 +62,19 @@ CLAIMED = {
         "different numeric type, array typecode / deque.maxlen / default_factory, pickle-fallback objects with differing "
         "pickles, pickle bytes of as-is frozensets.",
    technique="TLA+ value/key model checked by TLC; universe export; pairwise conformance in two interpreters"),
+ "C05": dict(
+   category="model_checking", design_ref="6 C05",
+   text="(1) MapCrash.tla, an fs-level model of run / process death / resume with switches for the write protocol: TLC shows "
+        "the original open-then-write protocol violates ResumeOK and that temp-file+rename with run_info written last "
+        "satisfies ResumeOK, NoPartialServed, NoRecompute and liveness Terminates for <=2 crashes. (2) The raw-IO operation "
+        "trace of a real uninterrupted run (fs interposer at write(2) granularity) is validated by TLC against that protocol "
+        "(TraceFsProtocol). (3) For EVERY operation index of that trace (plus a torn variant of every raw write), for user "
+        "raises at every call index and for sampled double crashes, forked children run/die/resume; the whole history "
+        "(run, interrupt with what is completely stored, resumed run with results) is validated by TLC against MapRun: "
+        "resumed results equal the denotation and nothing completely stored is recomputed.",
+   note="Crash = death of the sequential process between OS-level operations (short writes included); no fsync/reordering. "
+        "Stored = unpicklable file, observed independently of pipefunc. Process-pool runs are not crashed.",
+   technique="TLA+ crash model checked by TLC; fs-trace validation; exhaustive crash-point replay validated by TLC"),
 }
 NOT_YET = "check not built yet in this round (specification module planned in DESIGN.md section 6)"
 
